@@ -255,7 +255,10 @@ class LoopTracer:
             else:
                 tr["heads"].append(snap)
                 tr["tags"].append([])
-                if len(tr["heads"]) > 1 and tr["heads"][-1][0] == tr["heads"][-2][0]:
+                # n_accepted is a progress measure only where it is incremented per pass; with
+                # accumulate_weights it stays 0 until the expected count reaches N and the max_samples
+                # guard bounds the loop instead (C20_populate_accumulate_bounded)
+                if len(tr["heads"]) > 1 and tr["heads"][-1][0] == tr["heads"][-2][0] and not tr.get("accumulate"):
                     self.state["stalled_now"] = self.state.get("stalled_now", 0) + 1
                 else:
                     self.state["stalled_now"] = 0
@@ -478,6 +481,11 @@ def run_one(job, outdir):
         complete = tr["how"] == "return"
         if not complete:
             stats["interrupted"] += 1
+            if len(stats.setdefault("interrupted_traces", [])) < 3:
+                stats["interrupted_traces"].append({
+                    "kind": tr["kind"], "accumulate": bool(tr.get("accumulate")), "passes": k,
+                    "empty_passes": sum(1 for b in batches if b["empty"]), "n_proposed": final[1],
+                    "max_samples": tr.get("max_samples"), "how": tr["how"]})
         if len(tr_out) < job.get("max_traces", 12) and k <= 300:
             t = {kk: tr[kk] for kk in tr if kk not in ("heads", "tags", "exit")}
             # ImportanceFlowProposal.draw keeps no n_proposed: the draws counted by the sample_ith wrapper
